@@ -749,11 +749,20 @@ def large_cases(ctx, quick, CNF, S):
     # ---- wide clauses ----
     widths = [17, 18, 33, 40] if quick else [17, 18, 20, 24, 31, 32, 33, 40]
     for wi, w in enumerate(widths):
-        for variant in range(2 if quick else 4):
+        for variant in range(3 if quick else 6):
             nv = [12, w + 3, 5, w][(wi + variant) % 4]
-            opposite = variant != 1
+            opposite = variant % 3 != 1
             c = wide_clause(rng, w, nv, opposite)
-            F = [[c[0]], c, [-c[2], c[4]]] if variant % 2 == 0 else [c]
+            # short clauses that hold when every literal of the wide clause is false (so that the wide clause is
+            # not subsumed): one first occurrence, one negated first occurrence of another variable
+            firsts = []
+            for l in c:
+                if abs(l) not in [abs(x) for x in firsts]:
+                    firsts.append(l)
+            if len(firsts) >= 3 and variant % 3 == 0:
+                F = [[firsts[0], -firsts[-1]], c, [-firsts[1], firsts[2], firsts[2]]]
+            else:
+                F = [c]
             tag = 'width %d %s' % (w, 'with opposite pair' if opposite else 'no opposite pair')
             trs = list(CHEAP_K1)
             R = nv + 2
@@ -771,7 +780,7 @@ def large_cases(ctx, quick, CNF, S):
         c = wide_clause(rng, w, nv, True)
         if name in ('eq_invert', 'or'):
             c = [abs(l) if name == 'eq_invert' else -abs(l) for l in c]      # the expensive polarity
-        planned.append(('thresholds-wide-clause', 'width %d, 2^%d clauses' % (w, w), name, params, nv, [[c[1]], c], 300000, None))
+        planned.append(('thresholds-wide-clause', 'width %d, 2^%d clauses' % (w, w), name, params, nv, [[-c[0]], c], 300000, None))
 
     # ---- arities / left degrees ----
     Fa = [[1], [-2], [2, -3], [3, 3], [1, -1]]
